@@ -269,6 +269,7 @@ h!(c06_align_3_3, 26, valid_script::<3, 3>());
 h!(c06_align_4_3, 31, valid_script::<4, 3>());
 h!(c06_align_3_4, 31, valid_script::<3, 4>());
 h!(c06_align_4_4, 37, valid_script::<4, 4>());
+h!(c06_align_5_4, 43, valid_script::<5, 4>());
 h!(c06_align_0_2, 9, valid_script::<0, 2>());
 h!(c06_align_2_0, 9, valid_script::<2, 0>());
 
